@@ -19,6 +19,8 @@ pub(crate) mod table;
 
 pub(crate) mod table_spec;
 pub(crate) mod uf;
+#[cfg(egglog_verif)]
+pub mod verif;
 
 #[cfg(test)]
 mod tests;
